@@ -48,7 +48,7 @@ fn same_observed(a: &Object, b: &[Entry]) -> bool {
     ea.len() == b.len() && ea.iter().zip(b).all(|(x, y)| x.key.as_str() == y.key.as_str() && same_value(&x.value, &y.value))
 }
 
-const ROUTES: [&str; 9] = ["from_vec", "push_in_order", "push_front_in_reverse", "chunked_extend", "superset_then_remove_junk", "clone", "into_iter_collect", "null_then_iter_mut", "insert_in_order_if_unique_keys"];
+const ROUTES: [&str; 10] = ["from_vec", "push_in_order", "push_front_in_reverse", "chunked_extend", "superset_then_remove_junk", "clone", "into_iter_collect", "null_then_iter_mut", "insert_in_order_if_unique_keys", "clone_from_onto_other_history"];
 
 /// Build an object holding `obs` by route `route`, with a fresh hash layout.
 fn build_twin(route: usize, obs: &[Entry], rng: &mut Rng, orig: &Object) -> Option<Object> {
@@ -91,6 +91,14 @@ fn build_twin(route: usize, obs: &[Entry], rng: &mut Rng, orig: &Object) -> Opti
                 let mut o = Object::new();
                 for e in obs { o.push(e.key.clone(), Value::Null); }
                 for (i, (_, slot)) in o.iter_mut().enumerate() { *slot = obs[i].value.clone(); }
+                o
+            }
+            9 => {
+                // Clone::clone_from onto an object that has a history (and a hash builder) of its own
+                let mut o = Object::new();
+                for i in 0..rng.urange(0, 6) { o.push(Key::from(format!("other-{}", i).as_str()), Value::Null); }
+                if rng.chance(1, 2) { o.remove_at(0); }
+                o.clone_from(orig);
                 o
             }
             _ => {
